@@ -825,6 +825,7 @@ pub fn run_c19(plan: &Value) -> RunOutcome {
     }
     let zone = if free < lo { "free<min" } else if free < hi { "min<=free<max" } else { "free>=max" };
     h.probe(&format!("fill_level:{zone}:{}", if stored > estimated { "stored>estimated" } else { "stored<=estimated" }));
+    h.fault(&format!("fill_level_steered:{zone}"));
     h.sched.push_str(zone);
     h.sched.push_u64(filler_no as u64);
     // 3. the target itself, with up to 5 identical attempts
